@@ -123,13 +123,13 @@ func stdLoop(ps *PropSpec, w *World, tr *Trace, gen *Gen, check func(final bool)
 		}
 		v := w.execGuarded(&st)
 		if v == nil && w.AfterStep != nil {
-			v = w.AfterStep(w, &st)
+			v = guardedCheck(w, func(bool) *Violation { return w.AfterStep(w, &st) }, false)
 		}
 		if DebugHook != nil {
 			DebugHook(w, i, &st, v)
 		}
 		if v == nil && check != nil && w.Cfg.OracleStride > 0 && (i+1)%w.Cfg.OracleStride == 0 {
-			v = check(false)
+			v = guardedCheck(w, check, false)
 		}
 		if v != nil {
 			return classify(v)
@@ -137,11 +137,21 @@ func stdLoop(ps *PropSpec, w *World, tr *Trace, gen *Gen, check func(final bool)
 	}
 	w.StepNo = n
 	if check != nil {
-		if v := check(true); v != nil {
+		if v := guardedCheck(w, check, true); v != nil {
 			return classify(v)
 		}
 	}
 	return nil, nil
+}
+
+// guardedCheck runs the stride/final oracles; a library panic while they read the containers is a violation, not a crash.
+func guardedCheck(w *World, check func(final bool) *Violation, final bool) (v *Violation) {
+	defer func() {
+		if r := recover(); r != nil {
+			v = w.viol("panic", "library panicked while the state was being read back: %v", r)
+		}
+	}()
+	return check(final)
 }
 
 // Armed describes a fault armed for the next step only.
